@@ -10,6 +10,10 @@ from typing import Any, Dict, Optional, Tuple
 from .dictsem import DictInterp, Unsupported, Raised, _Return, ADict
 
 
+class ASet(list):
+    """abstract set: insertion-ordered list of hashable abstract values"""
+
+
 class AObj:
     def __init__(self, name: str, classes=(), isfunction=False, ismethod=False, attrs: Optional[Dict[str, Any]] = None):
         self.name = name
@@ -197,6 +201,17 @@ class KindInterp(DictInterp):
                 return a in v.attrs or ("%s.%s" % (ast.unparse(c.args[0]), a)) in self.env
         if fn == "id" and len(c.args) == 1 and not c.keywords:
             return ("id", id(self.ev(c.args[0])))          # object identity of the abstract value
+        if fn == "set" and not c.args and not c.keywords:
+            return ASet()                                    # a set of hashable abstract values (ids, strings, ints)
+        if isinstance(c.func, ast.Attribute) and c.func.attr in ("add", "discard") and len(c.args) == 1 and not c.keywords:
+            recv_s = self.ev(c.func.value)
+            if isinstance(recv_s, ASet):
+                v_s = self.ev(c.args[0])
+                if c.func.attr == "add" and v_s not in recv_s:
+                    recv_s.append(v_s)
+                if c.func.attr == "discard" and v_s in recv_s:
+                    recv_s.remove(v_s)
+                return None
         if isinstance(c.func, ast.Attribute) and c.func.attr == "index" and len(c.args) == 1 and not c.keywords:
             recv_ = self.ev(c.func.value)
             if isinstance(recv_, (list, tuple)):
